@@ -255,6 +255,7 @@ class StubFlx:
         self.script = script        # {call key: value found for the reference problem} -> verify instead of assume
         self.roots = {}
         self.counts = {}
+        self.req_counts = {}
         self.tag = tag
 
     def _key(self, kind):
@@ -297,8 +298,8 @@ class StubFlx:
         that is not observed is evaluated here (A-root allows evaluations at arbitrary points before the root).
         """
         w = self.env.w
-        n = self.counts.get('IQ_interpolation', 0)
         owner = getattr(f, '__self__', None); name = getattr(f, '__name__', None)
+        n = self.req_counts[name] = self.req_counts.get(name, -1) + 1      # numbered per callback: the same on every path
         args = tuple(args)
         for xn, xb, yn, yb in (('x0', x0, 'y0', y0), ('x1', x1, 'y1', y1)):
             if yb is None: continue          # flexsolve evaluates the callback itself
@@ -311,8 +312,11 @@ class StubFlx:
                 try: seen = [(xb, f(xb, *args))]
                 finally:
                     if rec is not None: g.recording = rec
-            w.ensure(f'{self.tag}IQ_interpolation#{n} requires: {yn} is the residual the callback returned at the bracket end {xn}',
-                     w.Or(*[w.And(same_point(w, a, xb), w.eq(r, yb)) for a, r in seen], False))
+            w.ensure(f'{self.tag}IQ_interpolation on {name}#{n} requires: {yn} is the residual the callback returned at the bracket end {xn}',
+                     w.Or(*[w.And(same_point(w, a, xb), same_value(w, r, yb)) for a, r in seen], False))
+            if yn == 'y0' and y1 is not None:
+                w.canary(f'canary: {self.tag}IQ_interpolation on {name}#{n}: y0 is the residual the callback returned at the OTHER bracket end x1',
+                         w.Or(*[w.And(same_point(w, a, x1), same_value(w, r, y0)) for a, r in seen], False))
 
     def wegstein(self, f, x, xtol=5e-8, args=(), maxiter=50, checkiter=True, checkconvergence=True, convergenceiter=0):
         w = self.env.w
@@ -460,6 +464,18 @@ def same_point(w, a, b):
     largest magnitude of the run, 1e12 Pa model values would make Tmin 'equal' to Tmax)."""
     if _is_sym(a) or _is_sym(b): return w.eq(a, b)
     return float(a) == float(b)
+
+
+def same_value(w, a, b):
+    """
+    "b is the value a that the callback returned": the same object, or equal up to 1e-6 relative (far more than a bracketing
+    solver needs).  The margin is what makes a solver counter-model survive the conversion to floats (a model in which the two
+    residuals differ in the 30th digit is no failing input natively); natively plain float arithmetic, not the tolerance of
+    the native w.le (relative to the largest magnitude of the run, 1e12 Pa model values would hide any difference).
+    """
+    if a is b: return True
+    d = abs(a - b); m = 1e-6 * (1. + abs(a) + abs(b))
+    return w.le(d, m) if w.symbolic else float(d) <= float(m)
 
 
 def _total(xs):
@@ -1007,3 +1023,172 @@ def grid_real_solvers(w, cfg):
         w.ensure(f'{tag}dew: T(P(T)) = T', abs(Td2 - T) <= 10 * T_ATOL, T_back=Td2, P=Pd)
         others(tag, 'T', T, Pb, y, Pd, x)
     w.note(evaluated=evaluated, skipped=skipped)
+
+
+# --------------------------------------------------------------------------- mode B: the bracketing fall-back of the real solvers
+
+F_CHEMS = B_CHEMS + ['AceticAcid', 'Acetone']
+for _i in F_CHEMS:
+    W.chemical(_i)          # created before forking
+
+# Inputs (solver, package, chemicals, z, specification) on which the REAL flx.aitken_secant of the solver leaves the feasible
+# region (InfeasibleRegion, a RuntimeError) on the reference tree, so that the answer comes from the bracketing fall-back
+# (flx.IQ_interpolation over the whole domain of the solver object).  Found by the pseudo-random search that the thorough tier
+# repeats (`_fallback_draws`, seeds 11-14: about 0.2 % of the dew-temperature and 0.6 % of the dew-pressure draws with the
+# Dortmund package, 0.01 % with the ideal one); kept: draws without an LLE-prone pair (F-C08-K1 is about those).  Whether
+# the fall-back is still reached is noted in the evidence (w.note), it is not a clause.
+FALLBACK_INPUTS = [
+    ('Px', 'dortmund', ['Ethanol', 'Hexane', 'Benzene', 'Acetone'], [0.2862505099657956, 0.0006259813129678727, 0.38239269273202203, 0.33073081598921444], 276.08319561586785),
+    ('Px', 'dortmund', ['Octane', 'Heptane', 'AceticAcid', 'Toluene'], [0.2883643452654656, 0.026425176775788258, 0.37599067228507105, 0.30921980567367496], 374.20427726579777),
+    ('Px', 'dortmund', ['Propanol', 'Hexane', 'Octane', 'Butanol', 'Acetone'], [0.1903582802374486, 0.1513004626994523, 0.44785252185640817, 0.08358098380512574, 0.12690775140156524], 300.41091214762),
+    ('Px', 'dortmund', ['Heptane', 'Propanol', 'Toluene', 'Butanol'], [0.6387893082741746, 0.15273145165556398, 0.08221876971194524, 0.12626047035831622], 342.0674536869175),
+    ('Tx', 'dortmund', ['AceticAcid', 'Heptane', 'Octane'], [0.300325560675727, 0.6337822427942789, 0.06589219652999409], 8016.7699432079835),
+    ('Px', 'dortmund', ['AceticAcid', 'Toluene', 'Heptane', 'Hexane', 'Ethanol'], [0.08364925607754628, 0.11617607706062814, 0.09058477217069909, 0.49887737221470435, 0.21071252247642214], 296.58948768141204),
+    ('Px', 'dortmund', ['Benzene', 'Propanol', 'Octane'], [0.45026323000921115, 0.4035191247578234, 0.14621764523296543], 338.6932671655977),
+    ('Px', 'dortmund', ['Ethanol', 'Octane', 'Benzene', 'Butanol', 'AceticAcid'], [0.08111368544029868, 0.2273952803079572, 0.5055766226654278, 0.06870424065670397, 0.11721017092961224], 299.3218389111378),
+    ('Px', 'dortmund', ['Acetone', 'Ethanol', 'Octane', 'Hexane'], [0.2912366976830301, 0.46907231394039545, 0.09890487981255723, 0.1407861085640173], 355.1141691443452),
+    ('Px', 'dortmund', ['Toluene', 'Butanol', 'Heptane'], [0.4015664521152152, 0.3237710640703055, 0.2746624838144793], 380.6162949964913),
+    ('Tx', 'dortmund', ['AceticAcid', 'Heptane'], [0.36910863371867314, 0.6308913662813269], 781798.1128985295),
+    ('Px', 'dortmund', ['AceticAcid', 'Ethanol', 'Acetone', 'Heptane'], [0.04986044231305053, 0.15838902343931144, 0.5211840910312417, 0.27056644321639617], 278.98160813668585),
+    ('Px', 'dortmund', ['Octane', 'Heptane', 'Ethanol', 'Propanol', 'AceticAcid'], [0.03842952892712061, 0.385307371809286, 0.39518476709121536, 0.16292356240416972, 0.01815476976820816], 408.3869931970888),
+    ('Px', 'dortmund', ['Butanol', 'Heptane', 'AceticAcid', 'Hexane', 'Octane'], [0.3490043062180288, 0.3588799000472585, 0.09513709892366796, 0.06765704477679822, 0.12932165003424678], 373.08083755010944),
+    ('Px', 'dortmund', ['Hexane', 'Benzene', 'AceticAcid', 'Toluene', 'Butanol'], [0.12250652262197628, 0.2065840890420386, 0.13245874356328122, 0.21673476673111935, 0.3217158780415845], 471.9757151760248),
+    ('Px', 'dortmund', ['Ethanol', 'Benzene', 'Acetone', 'Heptane'], [0.1692976062634688, 0.11917881872145165, 0.5439832600161324, 0.16754031499894728], 352.931615341987),
+    ('Tx', 'dortmund', ['Toluene', 'Ethanol', 'Octane'], [0.2871130941557279, 0.6133810742456769, 0.09950583159859526], 1243306.9654224426),
+    ('Px', 'dortmund', ['Benzene', 'Butanol', 'Heptane', 'AceticAcid', 'Hexane'], [0.17536979510877349, 0.03167554002786144, 0.48810732391140643, 0.08477948827811745, 0.22006785267384116], 286.43705584498286),
+    ('Px', 'dortmund', ['Butanol', 'Octane'], [0.5318679763527219, 0.468132023647278], 364.226966433332),
+    ('Tx', 'dortmund', ['Propanol', 'Toluene', 'Acetone'], [0.2672376550357289, 0.38372436690788475, 0.34903797805638653], 1059542.7967828347),
+    ('Px', 'dortmund', ['Toluene', 'Heptane', 'Butanol', 'Propanol'], [0.03321932725340572, 0.576553380854967, 0.051450634549405495, 0.3387766573422219], 366.65140569850894),
+    ('Px', 'dortmund', ['Butanol', 'Ethanol', 'Heptane', 'Acetone'], [0.1871612155473391, 0.23715926965809392, 0.46167343537779554, 0.1140060794167715], 372.3491898293933),
+    ('Px', 'dortmund', ['Toluene', 'Hexane', 'Heptane', 'Ethanol'], [0.1751007897072892, 0.0642354344089202, 0.29525989929174856, 0.4654038765920419], 294.42171843684537),
+    ('Px', 'dortmund', ['Octane', 'Butanol', 'AceticAcid', 'Hexane', 'Ethanol'], [0.22532769384728402, 0.32381587372979975, 0.192833919355172, 0.04365270353455048, 0.21436980953319365], 457.0611953587284),
+    ('Px', 'dortmund', ['Methanol', 'Benzene'], [0.631638276780601, 0.3683617232193988], 294.79977913927775),
+    ('Px', 'dortmund', ['Ethanol', 'Benzene', 'Butanol', 'Methanol'], [0.033805188838101276, 0.4324173076123724, 0.0004696333783302734, 0.533307870171196], 324.1922249872615),
+    ('Tx', 'dortmund', ['Benzene', 'Toluene', 'Ethanol'], [0.20183743848604388, 0.14422278613065612, 0.6539397753833001], 370410.4460065749),
+    ('Px', 'dortmund', ['Ethanol', 'Acetone', 'Methanol', 'Toluene'], [0.28160720314616267, 0.16962963195398847, 0.356611321464303, 0.1921518434355459], 323.12468164006356),
+    ('Tx', 'dortmund', ['Hexane', 'Propanol'], [0.7889840245819782, 0.21101597541802175], 236186.59819582445),
+    ('Tx', 'ideal', ['Propanol', 'AceticAcid', 'Toluene'], [0.004294729048110047, 0.8067941226046546, 0.18891114834723546], 758900.5728215635),
+]
+
+
+def _lle_prone(IDs):
+    return any(frozenset(p) in LLE_PAIRS for p in itertools.combinations(IDs, 2))
+
+
+def _fallback_draws(seed, n, pkg):
+    """Deterministic pseudo-random draws: 2-5 of the 12 chemicals, Dirichlet(1) composition, P log-uniform in 5e3-3e6 Pa,
+    T uniform in 260-480 K; every draw is posed to the four solvers."""
+    rng = np.random.default_rng(seed)
+    out = []
+    for _ in range(n):
+        m = int(rng.integers(2, 6))
+        IDs = [str(i) for i in rng.choice(F_CHEMS, m, replace=False)]
+        z = [float(v) for v in rng.dirichlet(np.ones(m))]
+        P = float(np.exp(rng.uniform(np.log(5e3), np.log(3e6)))); T = float(rng.uniform(260., 480.))
+        if _lle_prone(IDs): continue
+        for s in ('Ty', 'Tx', 'Py', 'Px'):
+            out.append((s, pkg, IDs, z, P if s[0] == 'T' else T))
+    return out
+
+
+def fallback_configs(tier):
+    _warm_up()
+    inputs = [tuple(i) for i in FALLBACK_INPUTS]
+    if tier == 'thorough':
+        seed = int(os.environ.get('VERIF_SEED', '0'))
+        inputs += _fallback_draws(1000 + seed, 1000, 'dortmund') + _fallback_draws(2000 + seed, 300, 'ideal')
+    out = []
+    for n, (s, pkg, IDs, z, spec) in enumerate(inputs):
+        out.append({'name': f"{s};{pkg};{'+'.join(IDs)};z={','.join(f'{v:.4g}' for v in z)};{'P' if s[0] == 'T' else 'T'}={spec:.6g}",
+                    'solver': s, 'pkg': pkg, 'IDs': list(IDs), 'z': [float(v) for v in z], 'spec': float(spec), 'k': 2.})
+    return out
+
+
+class CountingFlx:
+    """flexsolve itself; counts the bracketing solves that were handed an initial guess (only the fall-back branches do)."""
+
+    def __init__(self, real):
+        self.real = real
+        self.fallbacks = 0
+
+    def IQ_interpolation(self, f, x0, x1, y0=None, y1=None, x=None, *args, **kw):
+        if x is not None: self.fallbacks += 1
+        return self.real.IQ_interpolation(f, x0, x1, y0, y1, x, *args, **kw)
+
+    def __getattr__(self, name):
+        return getattr(self.real, name)
+
+
+@group('C08/fallback_real_solvers', configs=fallback_configs, mode='B',
+       functions=['thermosteam.equilibrium.bubble_point:BubblePoint.solve_Ty', 'thermosteam.equilibrium.bubble_point:BubblePoint.solve_Py',
+                  'thermosteam.equilibrium.dew_point:DewPoint.solve_Tx', 'thermosteam.equilibrium.dew_point:DewPoint.solve_Px'],
+       notes='real flexsolve solvers and real property data on inputs whose secant solve fails, so that the bracketing fall-back '
+             '(IQ interpolation over the whole domain of the solver object) produces the answer: quick: the listed inputs '
+             '(2-5 of 12 chemicals, Dortmund and ideal packages, no LLE-prone pair), thorough: additionally 1000 (Dortmund) + 300 (ideal) pseudo-random '
+             'draws (VERIF_SEED) posed to the four solvers.  A specification is inside the quantifier when the INVERSE solver at '
+             'the two ends of the range brackets it (P between the pressures at max(260, Tmin) and min(480, Tmax) K resp. T '
+             'between the temperatures at 5e3 and 3e6 Pa) - decided without looking at the computed value, so that a wrong answer '
+             'outside the range is not skipped; skipped when a solver raises RuntimeError.  Tolerances as in grid_real_solvers')
+def fallback_real_solvers(w, cfg):
+    IDs = cfg['IDs']; pkg = cfg['pkg']; s = cfg['solver']; spec = cfg['spec']
+    z = np.array(cfg['z'], dtype=float)
+    zb = z / z.sum()
+    th = b_thermo(IDs, pkg)
+    chems = th.chemicals.tuple
+    BP = eq.BubblePoint(chems, th); DP = eq.DewPoint(chems, th)
+    Tlo, Thi = max(260., BP.Tmin), min(480., BP.Tmax)
+    bubble = s[1] == 'y'; givenP = s[0] == 'T'
+    name = 'bubble' if bubble else 'dew'
+
+    def solvers(B, D):
+        return {'Ty': B.solve_Ty, 'Py': B.solve_Py, 'Tx': D.solve_Tx, 'Px': D.solve_Px}
+    S = solvers(BP, DP)
+
+    def inside(solver, v):
+        """Is the specification v of `solver` between the values its inverse gives at the two ends of the range?"""
+        inv = S[OTHER[solver]]
+        lo, hi = (Tlo, Thi) if solver[0] == 'T' else (5e3, 3e6)
+        a, _ = inv(z.copy(), lo); b, _ = inv(z.copy(), hi)
+        if solver[0] == 'P' and not (Tlo <= v <= Thi): return False
+        return a <= v <= b
+
+    def close(a, b, isT=givenP):
+        return abs(a - b) <= 10 * T_ATOL if isT else abs(a / b - 1.) <= 10 * P_RTOL
+
+    saved = (bp_mod.flx, dp_mod.flx)
+    counting = CountingFlx(saved[0])
+    try:
+        if not inside(s, spec):
+            w.note(skipped='specification outside the range'); return
+        bp_mod.flx = dp_mod.flx = counting
+        zin = z.copy()
+        res, comp = S[s](zin, spec)
+        bp_mod.flx, dp_mod.flx = saved
+        reached = counting.fallbacks
+        T, P = (res, spec) if givenP else (spec, res)
+        w.ensure('frame: z unchanged', bool(np.all(zin == z)))
+        w.ensure(f'{name}: returned fractions sum to one', abs(comp.sum() - 1.) <= 1e-9, composition=comp)
+        terms = _bubble_terms(BP, zb, T, P, comp) if bubble else _dew_terms(DP, zb, T, P, comp)
+        w.ensure(f'{name}: Raoult fractions sum to one (residual)', abs(1. - terms.sum()) <= RES_TOL, residual=1. - terms.sum(), T=T, P=P)
+        w.ensure(f'{name}: returned fractions are the Raoult fractions', _close_arr(comp, terms), returned=comp, raoult=terms)
+        back, _ = S[OTHER[s]](z.copy(), res)
+        w.ensure(f"{name}: {'P(T(P)) = P' if givenP else 'T(P(T)) = T'}", close(back, spec, not givenP), back=back, spec=spec, computed=res)
+        # the other saturation point at the same specification: bubble T <= dew T, dew P <= bubble P
+        o = {'Ty': 'Tx', 'Tx': 'Ty', 'Py': 'Px', 'Px': 'Py'}[s]
+        if inside(o, spec):
+            other, _ = S[o](z.copy(), spec)
+            b_, d_ = (res, other) if bubble else (other, res)
+            if givenP: w.ensure('bubble T <= dew T', b_ <= d_ + T_ATOL, Tb=b_, Td=d_)
+            else: w.ensure('dew P <= bubble P', d_ <= b_ * (1. + P_RTOL), Pb=b_, Pd=d_)
+        # normalised composition only, any order of the chemical list
+        r2, c2 = S[s](cfg['k'] * z, spec)
+        w.ensure(f'{name}: same point for k*z', close(r2, res) and _close_arr(c2, comp), k=cfg['k'], z=res, kz=r2)
+        perm = list(reversed(range(len(IDs))))
+        th2 = b_thermo([IDs[i] for i in perm], pkg)
+        r3, c3 = solvers(eq.BubblePoint(th2.chemicals.tuple, th2), eq.DewPoint(th2.chemicals.tuple, th2))[s](z[perm].copy(), spec)
+        w.ensure(f'{name}: same point for the permuted chemical list', close(r3, res) and _close_arr(c3, comp[perm]), original=res, permuted=r3)
+        w.note(fallback_reached=bool(reached), computed=res)
+    except RuntimeError as e:
+        w.note(skipped=f'solver raised {type(e).__name__}')
+    finally:
+        bp_mod.flx, dp_mod.flx = saved
